@@ -3,6 +3,7 @@ import EudoxiaModel.Proofs.Counts
 import EudoxiaModel.Proofs.Live
 import EudoxiaModel.Proofs.Built
 import EudoxiaModel.Proofs.WorldLive
+import EudoxiaModel.Proofs.FreshWorlds
 /-! # C02 — operator lifecycle follows the documented state machine; completion is final -/
 namespace Eudoxia.C02
 open Eudoxia Extracted OpState
@@ -176,5 +177,55 @@ theorem fresh_world_live (cfg : Cfg) (store : Store) (caps : List (Nat × Nat)) 
       | cons x xs ih => simp only [List.map_cons, List.flatMap_cons, ih]; simp [ownP, own, Pool.fresh]
     simp only [this]
     exact List.nodup_nil
+
+/-! ### full simulations under the shipped schedulers
+
+The ownership invariant is part of `WorldReady`, which the whole-run theorems of C08 / C18 carry through every tick of every run (`arrivals` is any list of
+arrival batches, one per tick: the world after the run is the world at an arbitrary tick boundary). -/
+
+/-- what `WorldReady` says about ownership: the unfinished operators of all running and suspending containers of all pools are pairwise distinct (no operator
+is held by two live containers), and each of them is ASSIGNED, RUNNING or SUSPENDING -/
+theorem ready_world_one_live_container_per_operator {w : World} (hr : WorldReady w) :
+    (w.pools.flatMap ownP).Nodup ∧
+    ∀ p ∈ w.pools, ∀ c ∈ p.active ++ p.suspending, c.completed = false ∧
+      ∀ o ∈ c.unfinished, w.store.stOf o = OpState.assigned ∨ w.store.stOf o = OpState.running ∨ w.store.stOf o = OpState.suspending := by
+  refine ⟨hr.nd, fun p hp c hc => ?_⟩
+  have l := (hr.pools p hp).2.1
+  exact ⟨l.nc c hc, fun o ho => l.busy c hc (l.nc c hc) o ho⟩
+
+/-- **`priority` with multi-operator containers** (pre-emption, write-outs, re-queued work): on every tick of every run from a fresh world no operator is
+in two live containers -/
+theorem one_live_container_per_operator_on_every_tick_of_every_priority_run (cfg : Cfg) (store : Store) (pipes : Array PipeInfo) (caps : List (Nat × Nat))
+    (arrivals : List (List Nat)) (hm : cfg.multiOp = true) (ho : cfg.overcommit = false) (hq : 0 < cfg.q)
+    (wf : (freshWorld cfg store pipes caps).WFP) (hs : (freshWorld cfg store pipes caps).SegsOK) (hp : (freshWorld cfg store pipes caps).PidOK)
+    (ht : (freshWorld cfg store pipes caps).Topo) (hF : arrivals.flatten.Nodup)
+    (hfut : ∀ pid ∈ arrivals.flatten, (pipes.getD pid default).order ≠ [] ∧ ∀ o ∈ (pipes.getD pid default).order, store.stOf o = OpState.pending) :
+    ∃ w' st' res', Prio.loop (freshWorld cfg store pipes caps) {} [] arrivals = .ok (w', st', res') ∧ (w'.pools.flatMap ownP).Nodup ∧
+      ∀ p ∈ w'.pools, ∀ c ∈ p.active ++ p.suspending, c.completed = false ∧
+        ∀ o ∈ c.unfinished, w'.store.stOf o = OpState.assigned ∨ w'.store.stOf o = OpState.running ∨ w'.store.stOf o = OpState.suspending := by
+  obtain ⟨w', st', cs', js', h, inv⟩ := PM.run_never_raises arrivals _ {} [] [] (PM.fresh_inv cfg store pipes caps _ hm ho hq wf hs hp ht hF hfut)
+  exact ⟨w', st', _, h, ready_world_one_live_container_per_operator inv.ready⟩
+
+/-- **`priority-pool` with multi-operator containers** -/
+theorem one_live_container_per_operator_on_every_tick_of_every_priority_pool_run (cfg : Cfg) (store : Store) (pipes : Array PipeInfo) (c0 c1 : Nat × Nat)
+    (arrivals : List (List Nat)) (hm : cfg.multiOp = true) (hq : 0 < cfg.q) (h0 : 0 < c0.1 ∧ 0 < c0.2) (h1 : 0 < c1.1 ∧ 0 < c1.2)
+    (wf : (freshWorld cfg store pipes [c0, c1]).WFP) (hs : (freshWorld cfg store pipes [c0, c1]).SegsOK) (hp : (freshWorld cfg store pipes [c0, c1]).PidOK)
+    (ht : (freshWorld cfg store pipes [c0, c1]).Topo) (hF : arrivals.flatten.Nodup)
+    (hfut : ∀ pid ∈ arrivals.flatten, (pipes.getD pid default).order ≠ [] ∧ ∀ o ∈ (pipes.getD pid default).order, store.stOf o = OpState.pending) :
+    ∃ w' st' res', PP.loop (freshWorld cfg store pipes [c0, c1]) {} [] arrivals = .ok (w', st', res') ∧ (w'.pools.flatMap ownP).Nodup ∧
+      ∀ p ∈ w'.pools, ∀ c ∈ p.active ++ p.suspending, c.completed = false ∧
+        ∀ o ∈ c.unfinished, w'.store.stOf o = OpState.assigned ∨ w'.store.stOf o = OpState.running ∨ w'.store.stOf o = OpState.suspending := by
+  obtain ⟨w', st', cs', h, inv⟩ := PP.run_never_raises arrivals _ {} [] (PP.fresh_inv cfg store pipes c0 c1 _ hm hq h0 h1 wf hs hp ht hF hfut)
+  exact ⟨w', st', _, h, ready_world_one_live_container_per_operator inv.ready⟩
+
+/-- **`overbook`** -/
+theorem one_live_container_per_operator_on_every_tick_of_every_overbook_run (cfg : Cfg) (store : Store) (pipes : Array PipeInfo) (caps : List (Nat × Nat))
+    (arrivals : List (List Nat)) (ho : cfg.overcommit = true) (hc : ∀ c ∈ caps, 0 < c.2)
+    (wf : (freshWorld cfg store pipes caps).WFP) (hs : (freshWorld cfg store pipes caps).SegsOK) :
+    ∃ w' st' res', Overbook.loop (freshWorld cfg store pipes caps) {} [] arrivals = .ok (w', st', res') ∧ (w'.pools.flatMap ownP).Nodup ∧
+      ∀ p ∈ w'.pools, ∀ c ∈ p.active ++ p.suspending, c.completed = false ∧
+        ∀ o ∈ c.unfinished, w'.store.stOf o = OpState.assigned ∨ w'.store.stOf o = OpState.running ∨ w'.store.stOf o = OpState.suspending := by
+  obtain ⟨w', st', res', h, inv⟩ := Overbook.run_never_raises arrivals _ {} [] (Overbook.fresh_inv cfg store pipes caps ho hc wf hs)
+  exact ⟨w', st', res', h, ready_world_one_live_container_per_operator inv.ready⟩
 
 end Eudoxia.C02
